@@ -58,7 +58,7 @@ def strategy(tier, phase):
         return st.fixed_dictionaries({"tape": rmodel.tape_strategy(), "steps": st.lists(step, min_size=1, max_size=1), "wrap": st.sampled_from([0, 0, 2]),
                                       "gen": st.just(4), "prelude": st.one_of(st.just([]), rmodel.tape_strategy(100), rmodel.tape_strategy(100)), "prelude_edit": edit})
     return st.fixed_dictionaries({"tape": rmodel.tape_strategy(), "steps": st.lists(step, min_size=1, max_size=6), "wrap": st.integers(0, 3),
-                                  "gen": st.sampled_from([2, 3, 4, 4, 5, 5]), "prelude": st.one_of(st.just([]), st.just([]), rmodel.tape_strategy(100)),
+                                  "gen": st.sampled_from([2, 3, 4, 4, 5, 5, 6, 6]), "prelude": st.one_of(st.just([]), st.just([]), rmodel.tape_strategy(100)),
                                   # ... or the prelude is the model under test with a few tape positions changed (the "same" model before an edit)
                                   "prelude_edit": st.one_of(st.just([]), st.just([]), st.lists(st.tuples(st.one_of(st.integers(0, 12), st.integers(0, 12), st.integers(0, 80)), st.integers(0, 2**16)).map(list), min_size=1, max_size=3))})
 
